@@ -503,7 +503,7 @@ func generate(seed uint64, thorough bool) []Case {
 		}
 		cases = append(cases, c)
 	}
-	rounds := 2
+	rounds := 6
 	if thorough {
 		rounds = 40
 	}
